@@ -20,7 +20,7 @@ import (
 	"verif/mc/dbx"
 	"verif/mc/e2e"
 	"verif/mc/ev"
-		rm "verif/mc/refmodel"
+	rm "verif/mc/refmodel"
 	"verif/mc/schemas"
 	"verif/mc/sys"
 	"verif/mc/workers"
@@ -85,8 +85,8 @@ func c01Alphabet() []dbx.Txn {
 }
 
 type c01Session struct {
-	Hist    []int  // transactions before the monitor(s)
-	After   []int  // transactions after
+	Hist    []int // transactions before the monitor(s)
+	After   []int // transactions after
 	Method  string
 	Cfg     int
 	OrderB  bool // park the (first) Monitor call after its reply while After[0] is committed and its notification handled
